@@ -267,13 +267,17 @@ func isTempError(err error) bool {
 	if rootErr := errors.Unwrap(err); rootErr != nil {
 		err = rootErr
 	}
-	return err.Error()[0] == '4'
+	msg := err.Error()
+	return len(msg) > 0 && msg[0] == '4'
 }
 
 func errorCode(err error) int {
 	rootErr := errors.Unwrap(err)
 	if rootErr != nil {
 		err = rootErr
+	}
+	if len(err.Error()) < 3 {
+		return 0
 	}
 	firstrune := err.Error()[0]
 	if firstrune < 52 || firstrune > 53 {
@@ -294,6 +298,9 @@ func enhancedStatusCode(err error, supported bool) string {
 	rootErr := errors.Unwrap(err)
 	if rootErr != nil {
 		err = rootErr
+	}
+	if len(err.Error()) == 0 {
+		return ""
 	}
 	firstrune := err.Error()[0]
 	if firstrune != 50 && firstrune != 52 && firstrune != 53 {
